@@ -586,6 +586,208 @@ def snap_rule(mod):
     return keep, bool(init_inf), loop_body, row_major, tr
 
 
+# ------------------------------------------------------------------ what the wrapper does to the caller's raster
+REL_UTILS = "xrspatial/utils.py"
+MUTATING_METHODS = {"update", "setdefault", "pop", "popitem", "clear", "__setitem__", "__delitem__", "__setattr__", "sort", "fill",
+                    "put", "itemset", "resize", "append", "extend", "insert", "remove", "reverse", "setflags", "partition",
+                    "byteswap", "rename_vars", "drop_vars_inplace", "load", "persist_inplace"}
+MUTATING_FUNCS = {"copyto", "put", "place", "putmask", "put_along_axis", "fill_diagonal", "setattr", "delattr"}
+PURE_CALLS = {"int", "float", "abs", "len", "isinstance", "min", "max", "range", "tuple", "list", "round", "str", "format", "type",
+              "bool", "sorted", "zip", "enumerate", "print", "DataArray", "warn"}
+
+
+def chain_root(node, names):
+    """the name at the root of an attribute / subscript / method-call chain when it is one of `names`"""
+    while True:
+        if isinstance(node, (ast.Attribute, ast.Subscript, ast.Starred)):
+            node = node.value
+        elif isinstance(node, ast.Call) and isinstance(node.func, ast.Attribute):
+            node = node.func.value
+        else:
+            break
+    return node.id if isinstance(node, ast.Name) and node.id in names else None
+
+
+IMMUTABLE_ATTRS = {"dims", "shape", "ndim", "name", "dtype", "size", "sizes", "nbytes", "itemsize"}
+
+
+def immutable_part(node):
+    """a chain that yields a value the raster cannot be changed through: a dimension name, the shape, a `.item()` scalar"""
+    while True:
+        if isinstance(node, ast.Attribute):
+            if node.attr in IMMUTABLE_ATTRS:
+                return True
+            node = node.value
+        elif isinstance(node, (ast.Subscript, ast.Starred)):
+            node = node.value
+        elif isinstance(node, ast.Call) and isinstance(node.func, ast.Attribute):
+            if node.func.attr in ("item", "tolist", "copy", "astype", "min", "max", "sum", "mean"):
+                return True
+            node = node.func.value
+        else:
+            return False
+
+
+def first_line(node):
+    return " ".join(ast.unparse(node).split())[:160]
+
+
+class RasterAccess:
+    """what a function (and the module-level functions it hands the raster, or a part of it, on to) does with one of its
+    parameters: `writes` -- statements that store into it (item / attribute assignment, `del`, mutating method calls,
+    `out=`), directly or through a local name bound to a part of it; `escapes` -- calls that receive it and whose body is
+    not in the scanned modules; `reads` -- the maximal attribute / item / method chains rooted at the parameter itself"""
+
+    def __init__(self, funcs):
+        self.funcs = funcs
+        self.writes, self.escapes, self.reads = [], [], []
+        self.seen = set()
+
+    def scan(self, fname, pindex, canonical="raster"):
+        if (fname, pindex) in self.seen or len(self.seen) > 40:
+            return
+        self.seen.add((fname, pindex))
+        f = self.funcs[fname]
+        allp = [a.arg for a in f.args.posonlyargs + f.args.args + f.args.kwonlyargs]
+        if pindex >= len(allp):
+            self.escapes.append(f"{fname}: parameter {pindex} not found")
+            return
+        P = allp[pindex]
+        aliases = {P}
+        grew = True
+        while grew:
+            grew = False
+            for n in ast.walk(f):
+                if isinstance(n, ast.Assign) and len(n.targets) == 1 and isinstance(n.targets[0], ast.Name) \
+                        and n.targets[0].id not in aliases and chain_root(n.value, aliases) and not immutable_part(n.value):
+                    aliases.add(n.targets[0].id)
+                    grew = True
+
+        def canon(node):
+            t = first_line(node)
+            return t if P == canonical else ast.unparse(_Rename(P, canonical).visit(copy.deepcopy(node))).replace("\n", " ")[:160]
+
+        def store_targets(t):
+            if isinstance(t, (ast.Tuple, ast.List)):
+                for e in t.elts:
+                    yield from store_targets(e)
+            elif isinstance(t, ast.Starred):
+                yield from store_targets(t.value)
+            else:
+                yield t
+        chains = []
+        for n in ast.walk(f):
+            tg = []
+            if isinstance(n, ast.Assign):
+                tg = [x for t in n.targets for x in store_targets(t)]
+            elif isinstance(n, (ast.AugAssign, ast.AnnAssign)):
+                tg = list(store_targets(n.target))
+            elif isinstance(n, ast.Delete):
+                tg = [x for t in n.targets for x in store_targets(t)]
+            elif isinstance(n, (ast.For, ast.AsyncFor)):
+                tg = list(store_targets(n.target))
+            elif isinstance(n, (ast.With, ast.AsyncWith)):
+                tg = [x for it in n.items if it.optional_vars is not None for x in store_targets(it.optional_vars)]
+            for t in tg:
+                if isinstance(t, (ast.Attribute, ast.Subscript)) and chain_root(t, aliases):
+                    self.writes.append(f"{fname}: {canon(n) if not isinstance(n, (ast.For, ast.With)) else canon(t)}")
+            if isinstance(n, ast.Call):
+                nm = call_name(n.func)
+                if isinstance(n.func, ast.Attribute) and nm in MUTATING_METHODS and chain_root(n.func.value, aliases):
+                    self.writes.append(f"{fname}: {canon(n)}")
+                if nm in MUTATING_FUNCS and n.args and chain_root(n.args[0], aliases):
+                    self.writes.append(f"{fname}: {canon(n)}")
+                for kw in n.keywords:
+                    if kw.arg == "out" and chain_root(kw.value, aliases):
+                        self.writes.append(f"{fname}: {canon(n)}")
+                if any(kw.arg == "inplace" and isinstance(kw.value, ast.Constant) and kw.value.value is True for kw in n.keywords) \
+                        and isinstance(n.func, ast.Attribute) and chain_root(n.func.value, aliases):
+                    self.writes.append(f"{fname}: {canon(n)}")
+                # the raster (or a part of it) handed on
+                handed = [(i, a) for i, a in enumerate(n.args) if chain_root(a, aliases)]
+                handed_kw = [(kw.arg, kw.value) for kw in n.keywords if kw.arg and chain_root(kw.value, aliases)]
+                if (handed or handed_kw) and isinstance(n.func, ast.Name) and nm in self.funcs:
+                    callee = self.funcs[nm]
+                    cp = [a.arg for a in callee.args.posonlyargs + callee.args.args + callee.args.kwonlyargs]
+                    for i, a in handed:
+                        whole = isinstance(a, ast.Name) and a.id == P
+                        self.scan(nm, i, canonical if whole else cp[i] if i < len(cp) else "?")
+                    for k, a in handed_kw:
+                        if k in cp:
+                            self.scan(nm, cp.index(k), canonical if isinstance(a, ast.Name) and a.id == P else k)
+                        else:
+                            self.escapes.append(f"{fname}: {canon(n)}")
+                elif (handed or handed_kw) and not (
+                        nm in PURE_CALLS or (isinstance(n.func, ast.Attribute) and isinstance(n.func.value, ast.Name)
+                                             and n.func.value.id in ("np", "numpy", "xr", "math", "warnings") and nm not in MUTATING_FUNCS)
+                        or (isinstance(n.func, ast.Attribute) and chain_root(n.func.value, aliases))):
+                    if any(isinstance(a, ast.Name) and a.id in aliases for _, a in handed + handed_kw):
+                        self.escapes.append(f"{fname}: {canon(n)}")
+            if isinstance(n, (ast.Attribute, ast.Subscript, ast.Call)) and chain_root(n, {P}) and not (
+                    isinstance(n, ast.Call) and not isinstance(n.func, ast.Attribute)):
+                chains.append(n)
+        inner = set()
+        for n in chains:
+            v = n.func if isinstance(n, ast.Call) else n.value
+            inner.add(id(v))
+            if isinstance(n, ast.Call):
+                inner.add(id(n.func.value))
+        for n in chains:
+            if id(n) not in inner:
+                self.reads.append(f"{fname}: {canon(n)}")
+        for n in ast.walk(f):
+            if isinstance(n, ast.Call) and isinstance(n.func, ast.Name) and any(isinstance(a, ast.Name) and a.id == P for a in n.args):
+                self.reads.append(f"{fname}: {canon(n)}")
+            if isinstance(n, ast.Compare) and any(isinstance(c, ast.Name) and c.id == P for c in [n.left] + n.comparators):
+                self.reads.append(f"{fname}: {canon(n)}")
+
+
+class _Rename(ast.NodeTransformer):
+    def __init__(self, a, b):
+        self.a, self.b = a, b
+
+    def visit_Name(self, n):
+        return ast.copy_location(ast.Name(id=self.b, ctx=n.ctx), n) if n.id == self.a else n
+
+
+def uniq(xs):
+    out = []
+    for x in xs:
+        if x not in out:
+            out.append(x)
+    return out
+
+
+def raster_facts(repo, mod):
+    """-> (writes, escapes, reads of the cell mapping) for `a_star_search(surface, ...)` / `_get_pixel_id(point, raster, ...)`"""
+    funcs = {}
+    try:
+        um = ast.parse(open(os.path.join(repo, REL_UTILS)).read())
+    except (OSError, SyntaxError):
+        um = ast.parse("")
+    for m in (um, mod):
+        for n in m.body:
+            if isinstance(n, (ast.FunctionDef, ast.AsyncFunctionDef)):
+                funcs[n.name] = n
+    for need in ("a_star_search", "_get_pixel_id", "get_dataarray_resolution"):
+        if need not in funcs:
+            raise Untranslatable(f"{need} not found")
+    whole = RasterAccess(funcs)
+    whole.scan("a_star_search", 0)
+    gp = funcs["_get_pixel_id"]
+    params = [a.arg for a in gp.args.args]
+    # the raster is the parameter whose `.coords` is read
+    ridx = None
+    for n in ast.walk(gp):
+        if isinstance(n, ast.Attribute) and n.attr == "coords" and isinstance(n.value, ast.Name) and n.value.id in params:
+            ridx = params.index(n.value.id)
+    if ridx is None:
+        raise Untranslatable("_get_pixel_id: no parameter whose .coords is read")
+    pix = RasterAccess(funcs)
+    pix.scan("_get_pixel_id", ridx)
+    return uniq(whole.writes), uniq(whole.escapes + pix.escapes), sorted(set(pix.reads)), uniq(pix.writes)
+
+
 # ------------------------------------------------------------------ emission
 def pairs(tbl):
     return "[" + ", ".join(f"({lean_int(a)}, {lean_int(b)})" for a, b in tbl) + "]"
@@ -786,5 +988,27 @@ def generate(repo):
         out += ["def snapKeep : C := C.ff", "def snapInitInf : Bool := false", f"def snapBody : S := S.fail {msg}",
                 "def snapRowMajor : Bool := false", ""]
         rep["snap"] = dict(ok=False, why=str(ex))
+    # the caller's raster: never written, the cell mapping reads coordinates / `res` only
+    try:
+        writes, escapes, reads, pwrites = raster_facts(repo, mod)
+        rep["raster"] = dict(ok=True, writes=writes, escapes=escapes, reads=reads)
+    except Exception as ex:          # noqa: BLE001  (anything unexpected = not recognised)
+        writes, escapes, reads, pwrites = ["untranslatable: " + str(ex)], ["untranslatable: " + str(ex)], [], ["untranslatable: " + str(ex)]
+        rep["raster"] = dict(ok=False, why=str(ex))
+
+    def strs(xs):
+        return "[" + ",\n   ".join(lean_str(x) for x in xs) + "]"
+    out += ["/-- statements of `a_star_search`, `_get_pixel_id`, `get_dataarray_resolution` and of every module-level function",
+            "    (pathfinding.py, utils.py; numba kernels included) the surface or a part of it is handed on to, that store into",
+            "    the caller's raster: item / attribute assignment (`raster.attrs[...] = ...`), `del`, mutating method calls,",
+            "    `out=`, `inplace=True` -- directly or through a local name bound to a part of it -/",
+            f"def surfaceWrites : List String :=\n  {strs(writes)}",
+            "/-- the same, from `_get_pixel_id`'s raster parameter alone -/",
+            f"def pixelRasterWrites : List String :=\n  {strs(pwrites)}",
+            "/-- calls that receive the raster itself and whose body is not in the scanned modules -/",
+            f"def surfaceEscapes : List String :=\n  {strs(escapes)}",
+            "/-- everything `_get_pixel_id` reads of its raster, through the functions it hands it to (`function: expression`,",
+            "    the raster parameter written `raster` whatever it is called) -/",
+            f"def pixelRasterReads : List String :=\n  {strs(reads)}", ""]
     out += ["end XrsVerif.Gen.AStarFacts", ""]
     yield "AStarFacts.lean", "\n".join(out), rep
